@@ -3,6 +3,7 @@
 Real get_intensities / get_intensity / get_layer_elements / get_interpolation / walk_two_vertices on a symbolic image
 (every pixel one symbol); interfaces are concrete integer polylines placed by rescale / offset."""
 import itertools
+from scipy import interpolate
 import math
 
 import numpy as np
@@ -86,13 +87,15 @@ def _band(pts, L, rescale, offset):
         dx, dy = abs(a0[0] - b0[0]), abs(a0[1] - b0[1])
         ax = 0 if dx > dy else 1
         step = 1 if a0[ax] < b0[ax] else -1
+        # linear interpolation by the same library routine the code uses: two positions count as one only if they are the
+        # same floats, and a pixel is the truncation of exactly that float
+        lin = interpolate.interp1d([a0[ax], b0[ax]], [a0[1 - ax], b0[1 - ax]], kind="linear") if a0[ax] != b0[ax] else None
         for v in range(a0[ax], b0[ax], step):
-            t = (v - a0[ax]) / (b0[ax] - a0[ax])
-            other = a0[1 - ax] + t * (b0[1 - ax] - a0[1 - ax])
+            other = float(lin(v))
             pos = (v, other) if ax == 0 else (other, v)
             for q in _window(pos, L):
                 pixels.add((int(q[0]), int(q[1])))
-                positions.add((round(q[0], 9), round(q[1], 9)))
+                positions.add((float(q[0]), float(q[1])))
         length += math.hypot(a[0] - b[0], a[1] - b[1])
     _band.positions = sorted(positions)
     return pixels, length
